@@ -9,8 +9,22 @@
 package consul
 
 import (
+	"context"
+	"fmt"
+	"io"
+	"sync"
+	"time"
+
+	"github.com/hashicorp/consul-net-rpc/net/rpc"
+	"github.com/hashicorp/go-hclog"
+	"github.com/hashicorp/raft"
+	"golang.org/x/time/rate"
+
 	"github.com/hashicorp/consul/agent/consul/fsm"
+	"github.com/hashicorp/consul/agent/consul/state"
+	"github.com/hashicorp/consul/agent/rpc/middleware"
 	"github.com/hashicorp/consul/agent/structs"
+	"github.com/hashicorp/consul/agent/token"
 )
 
 // VerifDiff is itemDiffResults with exported type name.
@@ -101,4 +115,332 @@ func VerifDiffConfigEntries(f *fsm.FSM, remote []structs.ConfigEntry, lastRemote
 // VerifDiffConfigEntryLists calls the real diffConfigEntries on explicit lists.
 func VerifDiffConfigEntryLists(local, remote []structs.ConfigEntry, lastRemoteIndex uint64) ([]structs.ConfigEntry, []structs.ConfigEntry) {
 	return diffConfigEntries(local, remote, lastRemoteIndex)
+}
+
+// ---------------------------------------------------------------------------------------------
+// Whole replication rounds.
+//
+// VerifReplNode runs the REAL round functions - Server.replicateACLPolicies / replicateACLRoles /
+// replicateACLTokens (replicateACLType), Server.replicateConfig (reconcileLocalConfig) and
+// IndexReplicator.Replicate over the real FederationStateReplicator - on a *Server that has just
+// what those functions touch:
+//   - fsm:   the secondary's real FSM (FetchLocal reads it),
+//   - raft:  a real single-node in-memory raft whose state machine forwards every committed log to
+//            that FSM, so leaderRaftApply / raftApply work unchanged,
+//   - RPC:   the real Server.RPC dispatching to stand-ins for the PRIMARY datacenter's list / batch
+//            read endpoints, which read a real primary state.Store (store list, Stub()) the way
+//            ACL.PolicyList, ACL.PolicyBatchRead, ... ConfigEntry.ListAll, FederationState.List do.
+// Every raft command the round submits is recorded in order. Nothing here decides anything.
+
+// VerifApplied is one raft command submitted by a round, in submission order.
+type VerifApplied struct {
+	Type structs.MessageType
+	Data []byte // msgpack body (without the type byte)
+	Err  string // "" or the error the FSM returned for it
+}
+
+// verifSwitchFSM is the raft.FSM of a VerifReplNode: it forwards to the FSM of the current round.
+type verifSwitchFSM struct {
+	mu      sync.Mutex
+	cur     *fsm.FSM
+	applied []VerifApplied
+}
+
+func (p *verifSwitchFSM) Apply(l *raft.Log) interface{} {
+	p.mu.Lock()
+	defer p.mu.Unlock()
+	if p.cur == nil || l.Type != raft.LogCommand || len(l.Data) == 0 {
+		return nil
+	}
+	resp := p.cur.Apply(l)
+	rec := VerifApplied{Type: structs.MessageType(l.Data[0]), Data: append([]byte(nil), l.Data[1:]...)}
+	if err, ok := resp.(error); ok && err != nil {
+		rec.Err = err.Error()
+	}
+	p.applied = append(p.applied, rec)
+	return resp
+}
+
+type verifNoSnapshot struct{}
+
+func (verifNoSnapshot) Persist(sink raft.SnapshotSink) error { return sink.Close() }
+func (verifNoSnapshot) Release()                             {}
+
+// Snapshot only lets raft truncate its in-memory log; the node is never restarted or restored.
+func (p *verifSwitchFSM) Snapshot() (raft.FSMSnapshot, error) { return verifNoSnapshot{}, nil }
+func (p *verifSwitchFSM) Restore(rc io.ReadCloser) error      { return rc.Close() }
+
+// VerifReplNode is a reusable single-node raft for running rounds one after the other.
+type VerifReplNode struct {
+	raft   *raft.Raft
+	trans  *raft.InmemTransport
+	proxy  *verifSwitchFSM
+	logger hclog.InterceptLogger
+}
+
+// VerifNewReplNode starts the raft node and waits until it is leader.
+func VerifNewReplNode() (*VerifReplNode, error) {
+	logger := hclog.NewInterceptLogger(&hclog.LoggerOptions{Output: io.Discard, Level: hclog.Off})
+	conf := raft.DefaultConfig()
+	conf.LocalID = "verif"
+	conf.Logger = logger
+	conf.HeartbeatTimeout = 20 * time.Millisecond
+	conf.ElectionTimeout = 20 * time.Millisecond
+	conf.LeaderLeaseTimeout = 20 * time.Millisecond
+	conf.CommitTimeout = time.Millisecond
+	conf.SnapshotThreshold = 4096
+	conf.SnapshotInterval = 2 * time.Second
+	conf.TrailingLogs = 64
+	store := raft.NewInmemStore()
+	addr, trans := raft.NewInmemTransport("verif")
+	proxy := &verifSwitchFSM{}
+	boot := raft.Configuration{Servers: []raft.Server{{Suffrage: raft.Voter, ID: conf.LocalID, Address: addr}}}
+	if err := raft.BootstrapCluster(conf, store, store, raft.NewInmemSnapshotStore(), trans, boot); err != nil {
+		return nil, err
+	}
+	r, err := raft.NewRaft(conf, proxy, store, store, raft.NewInmemSnapshotStore(), trans)
+	if err != nil {
+		return nil, err
+	}
+	deadline := time.Now().Add(30 * time.Second)
+	for r.State() != raft.Leader {
+		if time.Now().After(deadline) {
+			r.Shutdown()
+			return nil, fmt.Errorf("verif raft node did not become leader")
+		}
+		time.Sleep(time.Millisecond)
+	}
+	if err := r.Barrier(30 * time.Second).Error(); err != nil {
+		r.Shutdown()
+		return nil, err
+	}
+	return &VerifReplNode{raft: r, trans: trans, proxy: proxy, logger: logger}, nil
+}
+
+func (n *VerifReplNode) Close() {
+	n.raft.Shutdown().Error()
+	n.trans.Close()
+}
+
+// VerifPrimary is the primary datacenter as a round sees it: a real state store plus legacy
+// entries (empty id) that only exist in listings, and an optional permutation of every listing.
+type VerifPrimary struct {
+	Store         *state.Store
+	ExtraPolicies structs.ACLPolicyListStubs
+	ExtraRoles    structs.ACLRoles
+	ExtraTokens   structs.ACLTokenListStubs
+	Shuffle       func(n int, swap func(i, j int)) // e.g. (*rand.Rand).Shuffle; nil keeps store order
+}
+
+func (p *VerifPrimary) shuffle(n int, swap func(i, j int)) {
+	if p.Shuffle != nil {
+		p.Shuffle(n, swap)
+	}
+}
+
+// verifPrimaryACL stands in for the primary's ACL endpoint (read side used by replication).
+type verifPrimaryACL struct{ p *VerifPrimary }
+
+func (e *verifPrimaryACL) PolicyList(args *structs.ACLPolicyListRequest, reply *structs.ACLPolicyListResponse) error {
+	idx, policies, err := e.p.Store.ACLPolicyList(nil, &args.EnterpriseMeta)
+	if err != nil {
+		return err
+	}
+	stubs := make(structs.ACLPolicyListStubs, 0, len(policies))
+	for _, policy := range policies {
+		stubs = append(stubs, policy.Stub())
+	}
+	stubs = append(stubs, e.p.ExtraPolicies...)
+	e.p.shuffle(len(stubs), func(i, j int) { stubs[i], stubs[j] = stubs[j], stubs[i] })
+	reply.Index, reply.Policies = idx, stubs
+	return nil
+}
+
+func (e *verifPrimaryACL) PolicyBatchRead(args *structs.ACLPolicyBatchGetRequest, reply *structs.ACLPolicyBatchResponse) error {
+	idx, policies, err := e.p.Store.ACLPolicyBatchGet(nil, args.PolicyIDs)
+	if err != nil {
+		return err
+	}
+	reply.Index, reply.Policies = idx, policies
+	return nil
+}
+
+func (e *verifPrimaryACL) RoleList(args *structs.ACLRoleListRequest, reply *structs.ACLRoleListResponse) error {
+	idx, roles, err := e.p.Store.ACLRoleList(nil, args.Policy, &args.EnterpriseMeta)
+	if err != nil {
+		return err
+	}
+	out := append(structs.ACLRoles(nil), roles...)
+	out = append(out, e.p.ExtraRoles...)
+	e.p.shuffle(len(out), func(i, j int) { out[i], out[j] = out[j], out[i] })
+	reply.Index, reply.Roles = idx, out
+	return nil
+}
+
+func (e *verifPrimaryACL) TokenList(args *structs.ACLTokenListRequest, reply *structs.ACLTokenListResponse) error {
+	idx, tokens, err := e.p.Store.ACLTokenList(nil, args.IncludeLocal, args.IncludeGlobal, args.Policy, args.Role, args.AuthMethod, nil, &args.EnterpriseMeta)
+	if err != nil {
+		return err
+	}
+	stubs := make(structs.ACLTokenListStubs, 0, len(tokens))
+	for _, tok := range tokens {
+		stubs = append(stubs, tok.Stub())
+	}
+	stubs = append(stubs, e.p.ExtraTokens...)
+	e.p.shuffle(len(stubs), func(i, j int) { stubs[i], stubs[j] = stubs[j], stubs[i] })
+	reply.Index, reply.Tokens = idx, stubs
+	return nil
+}
+
+func (e *verifPrimaryACL) TokenBatchRead(args *structs.ACLTokenBatchGetRequest, reply *structs.ACLTokenBatchResponse) error {
+	idx, tokens, err := e.p.Store.ACLTokenBatchGet(nil, args.AccessorIDs)
+	if err != nil {
+		return err
+	}
+	reply.Index, reply.Tokens, reply.Redacted = idx, tokens, false
+	return nil
+}
+
+// verifPrimaryConfigEntry stands in for the primary's ConfigEntry endpoint.
+type verifPrimaryConfigEntry struct{ p *VerifPrimary }
+
+func (e *verifPrimaryConfigEntry) ListAll(args *structs.ConfigEntryListAllRequest, reply *structs.IndexedGenericConfigEntries) error {
+	idx, entries, err := e.p.Store.ConfigEntries(nil, &args.EnterpriseMeta)
+	if err != nil {
+		return err
+	}
+	out := append([]structs.ConfigEntry(nil), entries...)
+	e.p.shuffle(len(out), func(i, j int) { out[i], out[j] = out[j], out[i] })
+	reply.Index, reply.Entries = idx, out
+	return nil
+}
+
+// verifPrimaryFederationState stands in for the primary's FederationState endpoint.
+type verifPrimaryFederationState struct{ p *VerifPrimary }
+
+func (e *verifPrimaryFederationState) List(args *structs.DCSpecificRequest, reply *structs.IndexedFederationStates) error {
+	idx, states, err := e.p.Store.FederationStateList(nil)
+	if err != nil {
+		return err
+	}
+	out := append([]*structs.FederationState(nil), states...)
+	e.p.shuffle(len(out), func(i, j int) { out[i], out[j] = out[j], out[i] })
+	reply.Index, reply.States = idx, out
+	return nil
+}
+
+// server builds the secondary *Server of one round.
+func (n *VerifReplNode) server(sec *fsm.FSM, pri *VerifPrimary) (*Server, error) {
+	conf := &Config{
+		NodeName:                             "verif-secondary",
+		Datacenter:                           "dc2",
+		PrimaryDatacenter:                    "dc1",
+		ACLReplicationApplyLimit:             1000000, // the rate limiters tick every microsecond
+		ConfigReplicationApplyLimit:          1000000,
+		FederationStateReplicationApplyLimit: 1000000,
+	}
+	s := &Server{config: conf, fsm: sec, raft: n.raft, tokens: new(token.Store), logger: n.logger, dcSupportsFederationStates: 1}
+	s.rpcLimiter.Store(rate.NewLimiter(rate.Inf, 1))
+	s.rpcRecorder = middleware.NewRequestRecorder(n.logger, func() bool { return true }, conf.Datacenter)
+	s.rpcServer = rpc.NewServer()
+	if err := s.rpcServer.RegisterName("ACL", &verifPrimaryACL{p: pri}); err != nil {
+		return nil, err
+	}
+	if err := s.rpcServer.RegisterName("ConfigEntry", &verifPrimaryConfigEntry{p: pri}); err != nil {
+		return nil, err
+	}
+	if err := s.rpcServer.RegisterName("FederationState", &verifPrimaryFederationState{p: pri}); err != nil {
+		return nil, err
+	}
+	return s, nil
+}
+
+// replicators whose local listing additionally carries legacy entries (empty id) that a current
+// state store cannot hold; everything else is the embedded real replicator.
+type verifPolicyReplicatorLegacy struct {
+	*aclPolicyReplicator
+	extra structs.ACLPolicies
+}
+
+func (r *verifPolicyReplicatorLegacy) FetchLocal(srv *Server) (int, uint64, error) {
+	n, idx, err := r.aclPolicyReplicator.FetchLocal(srv)
+	r.local = append(r.local, r.extra...)
+	return n + len(r.extra), idx, err
+}
+
+type verifRoleReplicatorLegacy struct {
+	*aclRoleReplicator
+	extra structs.ACLRoles
+}
+
+func (r *verifRoleReplicatorLegacy) FetchLocal(srv *Server) (int, uint64, error) {
+	n, idx, err := r.aclRoleReplicator.FetchLocal(srv)
+	r.local = append(r.local, r.extra...)
+	return n + len(r.extra), idx, err
+}
+
+type verifTokenReplicatorLegacy struct {
+	*aclTokenReplicator
+	extra structs.ACLTokens
+}
+
+func (r *verifTokenReplicatorLegacy) FetchLocal(srv *Server) (int, uint64, error) {
+	n, idx, err := r.aclTokenReplicator.FetchLocal(srv)
+	r.local = append(r.local, r.extra...)
+	return n + len(r.extra), idx, err
+}
+
+// VerifRoundResult is what a real round returned plus the raft commands it submitted.
+type VerifRoundResult struct {
+	RemoteIndex uint64
+	Exit        bool
+	Err         error
+	Applied     []VerifApplied
+}
+
+// Round runs one real replication round of the given type ("policy", "role", "token", "config",
+// "fed") for the secondary FSM sec against the primary pri. extraLocal are legacy local entries
+// (structs.ACLPolicies / ACLRoles / ACLTokens) or nil.
+func (n *VerifReplNode) Round(typ string, sec *fsm.FSM, pri *VerifPrimary, extraLocal interface{}, lastRemoteIndex uint64) (VerifRoundResult, error) {
+	s, err := n.server(sec, pri)
+	if err != nil {
+		return VerifRoundResult{}, err
+	}
+	n.proxy.mu.Lock()
+	n.proxy.cur, n.proxy.applied = sec, nil
+	n.proxy.mu.Unlock()
+	ctx := context.Background()
+	var res VerifRoundResult
+	switch typ {
+	case "policy":
+		if extra, _ := extraLocal.(structs.ACLPolicies); len(extra) > 0 {
+			res.RemoteIndex, res.Exit, res.Err = s.replicateACLType(ctx, n.logger, &verifPolicyReplicatorLegacy{&aclPolicyReplicator{}, extra}, lastRemoteIndex)
+		} else {
+			res.RemoteIndex, res.Exit, res.Err = s.replicateACLPolicies(ctx, n.logger, lastRemoteIndex)
+		}
+	case "role":
+		if extra, _ := extraLocal.(structs.ACLRoles); len(extra) > 0 {
+			res.RemoteIndex, res.Exit, res.Err = s.replicateACLType(ctx, n.logger, &verifRoleReplicatorLegacy{&aclRoleReplicator{}, extra}, lastRemoteIndex)
+		} else {
+			res.RemoteIndex, res.Exit, res.Err = s.replicateACLRoles(ctx, n.logger, lastRemoteIndex)
+		}
+	case "token":
+		if extra, _ := extraLocal.(structs.ACLTokens); len(extra) > 0 {
+			res.RemoteIndex, res.Exit, res.Err = s.replicateACLType(ctx, n.logger, &verifTokenReplicatorLegacy{&aclTokenReplicator{}, extra}, lastRemoteIndex)
+		} else {
+			res.RemoteIndex, res.Exit, res.Err = s.replicateACLTokens(ctx, n.logger, lastRemoteIndex)
+		}
+	case "config":
+		res.RemoteIndex, res.Exit, res.Err = s.replicateConfig(ctx, lastRemoteIndex, n.logger)
+	case "fed":
+		rep := &IndexReplicator{Delegate: &FederationStateReplicator{srv: s}, Logger: n.logger}
+		res.RemoteIndex, res.Exit, res.Err = rep.Replicate(ctx, lastRemoteIndex, n.logger)
+	default:
+		return res, fmt.Errorf("unknown replication type %q", typ)
+	}
+	n.proxy.mu.Lock()
+	res.Applied = n.proxy.applied
+	n.proxy.cur, n.proxy.applied = nil, nil
+	n.proxy.mu.Unlock()
+	return res, nil
 }
